@@ -35,9 +35,11 @@ RULE = (
     "stocks, characteristics, parameters, 'par:flow' and 'src:dst' link flows and program spending, single simulation time or [low,high) period incl. inf and off-grid ends, "
     "with and without population selection; no / default / budget-factor / explicit total-spend constraint; maxiters 1..25 or maxtime; ASD randseed drawn), calibrate / calibrate-fault "
     "(1-3 y-factor adjustables per pop / all pops / meta factor, tuple and string forms, 1-3 data targets with metrics fractional/wape/meansquare, 0-3 extra data points, "
-    "start year optionally moved off the dt grid), unresolvable (total above/below the bounds), reconcile, objective-differential; fault kinds inject an exception at the k-th simulation "
+    "start year optionally moved off the dt grid; transfer y-factors in a two-population model; targets on 'Total' databook rows of number and rate quantities), optimize-sequence (2-3 at.optimize() calls "
+    "on the SAME Optimization objects with scaled / other allocations, each judged against its own start and against a newly built Optimization), allocations that leave programs unfunded with hard targets "
+    "relative to a zero baseline, unresolvable (total above/below the bounds), reconcile, objective-differential; fault kinds inject an exception at the k-th simulation "
     "for every k = 1..evaluations of the reference run; non-trivial = at least 2 accepted optimiser steps in the reference run, or at least one injected fault reached with "
-    "1 <= k <= evaluations, or (objective-differential) a non-zero finite quantity over at least 2 time points or a proper population subset; distinct = distinct case hash"
+    "1 <= k <= evaluations, or (optimize-sequence) a later call whose starting spend differs from the previous call's, or (objective-differential) a non-zero finite quantity over at least 2 time points or a proper population subset; distinct = distinct case hash"
 )
 ASSUMPTIONS = [
     "only the default ASD method is exercised (pso/hyperopt need packages that are not installed); generated ModelSpecs are not used: the problems live on deep copies of the library projects tb_simple, udt and hypertension",
